@@ -28,6 +28,13 @@ func checkC03(c *Ctx, r *Report) {
 	c03f(c, r)
 	c03g(c, r)
 	c03h(c, r)
+	// C03.i prerequisite: "each reduction in each parser state" — LALR(1) lookaheads are defined on the canonical LR(0)
+	// collection; on an automaton with a missing, duplicated or mis-linked state the relations range over the wrong
+	// transitions, and conflicts are reported that the grammar does not have (or the other way round). Not repeated
+	// when C03 itself is evaluated as a prerequisite of a property that includes C09 directly.
+	if r.Prop == "C03" {
+		includePrereq(c, r, "C03.i", checkC09)
+	}
 }
 
 // C03.h — the guard of each relation is exactly the conjunction its definition states: an extra conjunct drops pairs
